@@ -22,18 +22,18 @@ import (
 // Flush are conflicting accesses: a Flush outside the lock that orders the
 // writes is a data race and can splice or lose bytes.
 type c12Writer struct {
-	hdr     http.Header
-	status  int
-	body    bytes.Buffer // the wire
-	pending []byte       // written, not yet flushed
-	flushes int
-	writing bool
-	overlap bool
-	preempt bool
+	hdr      http.Header
+	status   int
+	body     bytes.Buffer // the wire
+	pending  []byte       // written, not yet flushed
+	flushes  int
+	writing  bool
+	overlap  bool
+	preempt  bool
 	finished bool // the handler has returned: net/http recycles the response, nothing may touch it any more
 	late     bool // ... but something did
-	sparse  bool // scheduling points only at boundary writes and flushes (not at every write)
-	gate    bool // writes are schedule gates: the native replay reproduces their order relative to payload production
+	sparse   bool // scheduling points only at boundary writes and flushes (not at every write)
+	gate     bool // writes are schedule gates: the native replay reproduces their order relative to payload production
 }
 
 func (w *c12Writer) Header() http.Header { return w.hdr }
@@ -149,7 +149,7 @@ func Harness_C12_multipart() {
 	a.Add(&graphql.Response{Data: json.RawMessage(`{"i":0}`), HasNext: c12HasNext(n > 0, n == 0 && zzsym.Bool("nilHasNext"))}, true)
 	tick("after-initial")
 	for k := 1; k <= n; k++ {
-		a.Add(&graphql.Response{Data: json.RawMessage(`{"d":` + string(rune('0'+k)) + `}`), Label: "L", HasNext: c12Bool(k < n)}, false)
+		a.Add(&graphql.Response{Data: json.RawMessage(`{"d":` + string(rune('0'+k)) + `}`), Label: "100%d %s%", HasNext: c12Bool(k < n)}, false)
 		tick("after-" + string(rune('0'+k)))
 	}
 	a.Done(w)
@@ -165,6 +165,7 @@ func Harness_C12_multipart() {
 			zzsym.Assert(seenInitial == 1, "incremental parts follow the initial payload")
 			for _, e := range inc {
 				d, _ := json.Marshal(e.(map[string]any)["data"])
+				zzsym.Assert(e.(map[string]any)["label"] == "100%d %s%", "an incremental payload is delivered with its label byte for byte (format verbs in it are data)")
 				seenInc = append(seenInc, string(d))
 			}
 		} else {
@@ -192,15 +193,15 @@ func c12HasNext(v bool, useNil bool) *bool {
 // ---- SSE
 
 type c12Exec struct {
-	n      int // payloads
-	reject bool
+	n        int // payloads
+	reject   bool
 	stopped  bool
 	cancelAt int                // >0: the request context is cancelled while the cancelAt-th payload is being produced
 	cancel   context.CancelFunc // (the payload is still returned: the resolvers had finished)
-	gate   bool // payload production is a schedule gate (see c12Writer.gate)
-	yield  bool // producing a payload takes time: any other goroutine (a ticker's) may run before each one
-	inc    bool // incremental delivery shape: initial payload {"i":0}, then labelled payloads, hasNext true on all but the last
-	spaced bool // payload data carries insignificant white space incl. a line break (as graphql.MarshalAny / MarshalMap emit through json.Encoder)
+	gate     bool               // payload production is a schedule gate (see c12Writer.gate)
+	yield    bool               // producing a payload takes time: any other goroutine (a ticker's) may run before each one
+	inc      bool               // incremental delivery shape: initial payload {"i":0}, then labelled payloads, hasNext true on all but the last
+	spaced   bool               // payload data carries insignificant white space incl. a line break (as graphql.MarshalAny / MarshalMap emit through json.Encoder)
 }
 
 func (e *c12Exec) CreateOperationContext(ctx context.Context, params *graphql.RawParams) (*graphql.OperationContext, gqlerror.List) {
@@ -243,7 +244,7 @@ func (e *c12Exec) DispatchOperation(ctx context.Context, rc *graphql.OperationCo
 			if k == 1 {
 				return &graphql.Response{Data: json.RawMessage(`{"i":0}`), HasNext: c12Bool(e.n > 1)}
 			}
-			return &graphql.Response{Data: json.RawMessage(`{"d":` + string(rune('0'+k-1)) + `}`), Label: "L", HasNext: c12Bool(k < e.n)}
+			return &graphql.Response{Data: json.RawMessage(`{"d":` + string(rune('0'+k-1)) + `}`), Label: "100%d %s%", HasNext: c12Bool(k < e.n)}
 		}
 		if e.spaced {
 			return &graphql.Response{Data: json.RawMessage(`{"k":` + string(rune('0'+k)) + `,"m":{"a":[1, 2]}` + "\n" + `}`)}
@@ -367,6 +368,7 @@ func Harness_C12_multipartDo() {
 			zzsym.Assert(seenInitial == 1, "incremental parts follow the initial payload")
 			for _, e := range inc {
 				d, _ := json.Marshal(e.(map[string]any)["data"])
+				zzsym.Assert(e.(map[string]any)["label"] == "100%d %s%", "an incremental payload is delivered with its label byte for byte (format verbs in it are data)")
 				seenInc = append(seenInc, string(d))
 			}
 		} else {
